@@ -22,6 +22,19 @@ where
       else if a.kind == .endB_ && a.name == "if" then go as (stack.drop 1)
       else go as stack
 
+/-- `mergeWFMaps(a, b)`: `for k, v := range b { a[k] = v }; return a`, and nothing else -/
+def mergeInPlace : Bool :=
+  let l := Scipipe.mergeWFMaps
+  l.any (fun a => a.kind == .rangeB_ && a.name == "b") &&
+  l.any (fun a => a.kind == .assign_ && a.name == "a[k]" && a.recv == "=" && a.args == ["v"]) &&
+  l.any (fun a => a.kind == .ret_ && a.args == ["a"]) &&
+  count (fun a => a.kind == .assign_) l == 1 && count (fun a => a.kind == .call_) l == 0
+
+/-- the recursion result for `who` is merged into `procs` -/
+def mergedCall (up : List Atom) (who : String) : Bool :=
+  up.any (fun a => a.isCall "mergeWFMaps" && a.args == ["procs", "upstreamProcsForProc(" ++ who ++ ")"]) &&
+  up.any (fun a => a.kind == .assign_ && a.name == "procs[" ++ who ++ ".Name()]" && a.args == [who])
+
 def runSem : RunSem :=
   let up := Scipipe.upstreamProcsForProc
   let rec_ := Scipipe.Workflow_reconnectDeadEndConnections
@@ -51,6 +64,10 @@ def runSem : RunSem :=
       before run (·.isCall "reconnectDeadEndConnections") (·.isCall "readyToRun") &&
       before run (fun a => a.kind == .ifB_ && a.name == "!wf.readyToRun(procs)") (fun a => a.isCall "Fail" && a.recv == "wf") &&
       before run (fun a => a.isCall "Fail" && a.recv == "wf") (fun a => a.kind == .go_ && a.name == "Run") &&
-      before run (fun a => a.kind == .go_ && a.name == "Run") (fun a => a.isCall "Run" && a.recv == "wf.driver") }
+      before run (fun a => a.kind == .go_ && a.name == "Run") (fun a => a.isCall "Run" && a.recv == "wf.driver"),
+    -- the closure of an upstream process reaches `procs`: `mergeWFMaps` writes into its first argument
+    -- and is called with `procs` as that argument (or its result is assigned back to `procs`)
+    mergesFile := mergeInPlace && mergedCall up "rpt.Process()",
+    mergesParam := mergeInPlace && mergedCall up "rpp.Process()" }
 
 end SciVerif.Tie
